@@ -1,7 +1,9 @@
 /-
-  SOURCE TIE, CVSS2: the hand-written model `Cvss.Model.V2` equals the translation of cvss/cvss2.py's
-  scoring methods that `tools/gen_code.py` regenerates from the SOURCE TEXT on every run
-  (`Cvss.Gen.Code2`).  Every theorem declared directly in this namespace is an obligation.
+  SOURCE TIE, CVSS2: the hand-written model `Cvss.Model.V2` equals the translation of cvss/cvss2.py that
+  `tools/gen_code.py` regenerates from the SOURCE TEXT on every run (`Cvss.Gen.Code2`): the whole
+  constructor (`__init__`: `parse_vector`, `check_mandatory`, `compute_*`) with its exception classes,
+  `get_value`, the equations and the accessors.  Translated code runs in `Py.M = Except Py.Exc`.
+  Every theorem declared directly in this namespace is an obligation.
 -/
 import Cvss.Py
 import Cvss.Gen.Code2
@@ -20,17 +22,36 @@ theorem q25 : mkRat 2 5 = mkRat 4 10 := by decide
 theorem q32 : mkRat 3 2 = mkRat 15 10 := by decide
 theorem q147 : mkRat 147 125 = mkRat 1176 1000 := by decide
 
+theorem to_bind {α β : Type} (x : Py.M α) (f : α → Py.M β) :
+    (x >>= f).toOption = x.toOption.bind (fun a => (f a).toOption) := by
+  cases x <;> rfl
+
+theorem to_pure {α : Type} (a : α) : (pure a : Py.M α).toOption = some a := rfl
+
+theorem to_ok {α : Type} (a : α) : (Except.ok a : Py.M α).toOption = some a := rfl
+
+theorem to_req {α : Type} (t : Option α) : (Py.req t).toOption = t := by
+  cases t <;> rfl
+
+theorem to_getitem {β : Type} (k : Str) (d : List (Str × β)) : (Py.getitem k d).toOption = lookup k d := by
+  unfold Py.getitem
+  cases lookup k d <;> rfl
+
+theorem to_ite {α : Type} (c : Prop) [Decidable c] (x y : Py.M α) :
+    (if c then x else y).toOption = if c then x.toOption else y.toOption := by
+  split <;> rfl
+
 end Aux
 
 /-- `round_to_1_decimal` is ROUND_HALF_UP to one decimal -/
-theorem round_eq (x : Rat) : Code2.round_to_1_decimal x = some (roundHalfUp1 x) := by
+theorem round_eq (x : Rat) : Code2.round_to_1_decimal x = .ok (roundHalfUp1 x) := by
   rfl
 
 /-- `get_value` (a `None` weight counts as the failure it causes as soon as it is used) -/
 theorem get_value_eq (self : Code2.Self) (a : Str) :
-    (Code2.get_value self a).bind id = Model.V2.getValue self.metrics a := by
+    (Code2.get_value self a).toOption.bind id = Model.V2.getValue self.metrics a := by
   unfold Code2.get_value Model.V2.getValue
-  simp only [Py.getitem, Py.getD, Model.V2.ND, bind, pure]
+  simp only [Aux.to_bind, Aux.to_pure, Aux.to_getitem, Py.getD, Model.V2.ND]
   cases h : lookup a Gen.V2.values with
   | none => rfl
   | some row =>
@@ -38,9 +59,9 @@ theorem get_value_eq (self : Code2.Self) (a : Str) :
     cases h2 : lookup ((lookup a self.metrics).getD c!"ND") row <;> rfl
 
 theorem get_value_description_eq (self : Code2.Self) (a : Str) :
-    Code2.get_value_description self a = Model.V2.getDescription self.metrics a := by
+    (Code2.get_value_description self a).toOption = Model.V2.getDescription self.metrics a := by
   unfold Code2.get_value_description Model.V2.getDescription
-  simp only [Py.getitem, Py.getD, Model.V2.ND, bind, pure]
+  simp only [Aux.to_bind, Aux.to_pure, Aux.to_getitem, Py.getD, Model.V2.ND]
   cases h : lookup a Gen.V2.valueNames with
   | none => rfl
   | some row =>
@@ -49,31 +70,35 @@ theorem get_value_description_eq (self : Code2.Self) (a : Str) :
 
 namespace Aux
 
-theorem gv {β : Type} (self : Code2.Self) (a : Str) (f : Rat → Option β) :
-    (Code2.get_value self a >>= fun t => Py.req t >>= f) = (Model.V2.getValue self.metrics a >>= f) := by
+theorem gv {β : Type} (self : Code2.Self) (a : Str) (g : Rat → Option β) :
+    (Code2.get_value self a).toOption.bind (fun t => t.bind g) = (Model.V2.getValue self.metrics a).bind g := by
   rw [← get_value_eq]
-  cases Code2.get_value self a <;> rfl
+  cases (Code2.get_value self a).toOption <;> rfl
 
 end Aux
 
 theorem impact_equation_eq (self : Code2.Self) :
-    Code2.impact_equation self = Model.V2.impactEq self.metrics := by
+    (Code2.impact_equation self).toOption = Model.V2.impactEq self.metrics := by
   unfold Code2.impact_equation Model.V2.impactEq
-  simp only [Aux.gv, Aux.q1, Model.V2.r]
+  simp only [Aux.to_bind, Aux.to_pure, Aux.to_req, Aux.gv, Aux.q1, Model.V2.r]
+  rfl
 
 theorem adjusted_impact_equation_eq (self : Code2.Self) :
-    Code2.adjusted_impact_equation self = Model.V2.adjustedImpactEq self.metrics := by
+    (Code2.adjusted_impact_equation self).toOption = Model.V2.adjustedImpactEq self.metrics := by
   unfold Code2.adjusted_impact_equation Model.V2.adjustedImpactEq
-  simp only [Aux.gv, Aux.q1, Aux.q10, Model.V2.r]
+  simp only [Aux.to_bind, Aux.to_pure, Aux.to_req, Aux.gv, Aux.q1, Aux.q10, Model.V2.r]
+  rfl
 
 theorem base_score_equation_eq (self : Code2.Self) (adj : Bool) :
-    Code2.base_score_equation self adj = Model.V2.baseEq self.metrics adj := by
+    (Code2.base_score_equation self adj).toOption = Model.V2.baseEq self.metrics adj := by
   unfold Code2.base_score_equation Model.V2.baseEq
   cases adj
-  · simp only [Bool.false_eq_true, if_false, bind_pure, impact_equation_eq, Aux.gv, round_eq,
+  · simp only [Bool.false_eq_true, if_false, bind_pure, Aux.to_bind, Aux.to_ok, Aux.to_req,
+      impact_equation_eq, Aux.gv, round_eq,
       Aux.q0, Aux.q20, Aux.q35, Aux.q25, Aux.q32, Aux.q147, Model.V2.r]
     rfl
-  · simp only [if_true, bind_pure, adjusted_impact_equation_eq, Aux.gv, round_eq,
+  · simp only [if_true, bind_pure, Aux.to_bind, Aux.to_ok, Aux.to_req,
+      adjusted_impact_equation_eq, Aux.gv, round_eq,
       Aux.q0, Aux.q20, Aux.q35, Aux.q25, Aux.q32, Aux.q147, Model.V2.r]
     rfl
 
@@ -83,32 +108,32 @@ theorem allND_eq (m : List (Str × Str)) (g : List Str) :
     (List.all g (fun a => decide ((Py.getD a m c!"ND") = c!"ND"))) = Model.V2.allND m g := rfl
 
 theorem temporal_true (self : Code2.Self) (b : Rat) :
-    Code2.temporal_score_equation self true = Model.V2.temporalEq self.metrics b true := by
+    (Code2.temporal_score_equation self true).toOption = Model.V2.temporalEq self.metrics b true := by
   unfold Code2.temporal_score_equation Model.V2.temporalEq
-  simp only [if_true, base_score_equation_eq, Aux.gv, round_eq]
+  simp only [if_true, to_bind, to_pure, to_ok, to_req, base_score_equation_eq, Aux.gv, round_eq]
   cases Model.V2.baseEq self.metrics true <;> rfl
 
 theorem temporal_false (self : Code2.Self) (b : Rat) (h : self.base_score = some b) :
-    Code2.temporal_score_equation self false = Model.V2.temporalEq self.metrics b false := by
+    (Code2.temporal_score_equation self false).toOption = Model.V2.temporalEq self.metrics b false := by
   unfold Code2.temporal_score_equation Model.V2.temporalEq
-  simp only [Bool.false_eq_true, if_false, Aux.gv, round_eq, h]
+  simp only [Bool.false_eq_true, if_false, to_bind, to_pure, to_ok, to_req, Aux.gv, round_eq, h]
   rfl
 
 theorem ct (self : Code2.Self) (b : Rat) (h : self.base_score = some b) :
-    Code2.compute_temporal_score self =
+    (Code2.compute_temporal_score self).toOption =
       ((if Model.V2.allND self.metrics Gen.V2.temporal then pure none
         else do
           let t ← Model.V2.temporalEq self.metrics b false
           pure (some (pyMax 0 t))) >>= fun t => pure { self with temporal_score := t }) := by
   unfold Code2.compute_temporal_score
-  simp only [allND_eq, temporal_false self b h, q0]
+  simp only [allND_eq, to_bind, to_pure, to_ite, temporal_false self b h, q0]
   cases Model.V2.allND self.metrics Gen.V2.temporal
   · simp only [Bool.false_eq_true, if_false]
     cases Model.V2.temporalEq self.metrics b false <;> rfl
   · rfl
 
 theorem ce (self : Code2.Self) (b : Rat) :
-    Code2.compute_environmental_score self =
+    (Code2.compute_environmental_score self).toOption =
       ((if Model.V2.allND self.metrics Gen.V2.environmental then pure none
         else do
           let ta ← Model.V2.temporalEq self.metrics b true
@@ -117,7 +142,7 @@ theorem ce (self : Code2.Self) (b : Rat) :
           pure (some (pyMax 0 (roundHalfUp1 ((ta + (10 - ta) * cdp) * td))))) >>=
         fun e => pure { self with environmental_score := e }) := by
   unfold Code2.compute_environmental_score
-  simp only [allND_eq, temporal_true self b, q0, q10, gv, round_eq]
+  simp only [allND_eq, to_bind, to_pure, to_ok, to_ite, to_req, temporal_true self b, q0, q10, gv, round_eq]
   cases Model.V2.allND self.metrics Gen.V2.environmental
   · simp only [Bool.false_eq_true, if_false]
     cases Model.V2.temporalEq self.metrics b true with
@@ -134,24 +159,23 @@ end Aux
 /-- what `__init__` computes after `check_mandatory()`: the translated source and the model produce the
     same three scores (or both raise), for EVERY metric dict and whatever the attributes held before -/
 theorem init_tail_eq (self : Code2.Self) (vector : Str) :
-    (Code2.init_tail self vector).map
+    (Code2.init_tail self vector).toOption.map
         (fun s => (s.vector, s.metrics, s.base_score, s.temporal_score, s.environmental_score)) =
       (Model.V2.computeScores self.metrics).map
         (fun x => (self.vector, self.metrics, some x.1, x.2.1, x.2.2)) := by
   unfold Code2.init_tail Code2.compute_base_score Model.V2.computeScores Model.V2.baseScore
-  simp only [base_score_equation_eq, Aux.q0]
+  simp only [Aux.to_bind, Aux.to_pure, base_score_equation_eq, Aux.q0]
   cases Model.V2.baseEq self.metrics false with
   | none => rfl
   | some b0 =>
-    show (Code2.compute_temporal_score { self with base_score := some (pyMax 0 b0) } >>=
-        Code2.compute_environmental_score).map _ = _
+    simp only [Option.bind_some]
     rw [Aux.ct _ (pyMax 0 b0) rfl]
     simp only [Option.pure_def, Option.bind_eq_bind, Option.bind_some]
     have fin : ∀ (t : Option Rat),
         Option.map (fun s => (s.vector, s.metrics, s.base_score, s.temporal_score, s.environmental_score))
           (Code2.compute_environmental_score
             { vector := self.vector, metrics := self.metrics, base_score := some (pyMax 0 b0),
-              temporal_score := t, environmental_score := self.environmental_score }) =
+              temporal_score := t, environmental_score := self.environmental_score }).toOption =
         Option.map (fun x : Rat × Option Rat × Option Rat => (self.vector, self.metrics, some x.fst, x.snd.fst, x.snd.snd))
           (if Model.V2.allND self.metrics Gen.V2.environmental = true then some (pyMax 0 b0, t, none)
            else
@@ -179,13 +203,379 @@ theorem init_tail_eq (self : Code2.Self) (vector : Str) :
       | some t => exact fin _
     · exact fin _
 
+namespace Aux
+
+/-- every exception the computation can raise is outside the library's own hierarchy -/
+structure Foreign {α : Type} (x : Py.M α) : Prop where
+  out : ∀ e, x = .error e → e.toErr = .foreign
+
+theorem fg_pure {α : Type} (a : α) : Foreign (pure a : Py.M α) := ⟨by
+  intro e h; cases h⟩
+
+theorem fg_ok {α : Type} (a : α) : Foreign (Except.ok a : Py.M α) := ⟨by
+  intro e h; cases h⟩
+
+theorem fg_bind {α β : Type} (x : Py.M α) (f : α → Py.M β) (hx : Foreign x) (hf : ∀ a, Foreign (f a)) :
+    Foreign (x >>= f) := ⟨by
+  intro e h
+  cases x with
+  | error e' =>
+    cases h
+    exact hx.out _ rfl
+  | ok a => exact (hf a).out e h⟩
+
+theorem fg_ite {α : Type} (c : Prop) [Decidable c] (x y : Py.M α) (hx : Foreign x) (hy : Foreign y) :
+    Foreign (if c then x else y) := by
+  split <;> assumption
+
+theorem fg_req {α : Type} (t : Option α) : Foreign (Py.req t) := ⟨by
+  intro e h
+  cases t with
+  | none => cases h; rfl
+  | some v => cases h⟩
+
+theorem fg_getitem {β : Type} (k : Str) (d : List (Str × β)) : Foreign (Py.getitem k d) := ⟨by
+  intro e h
+  unfold Py.getitem at h
+  cases hl : lookup k d with
+  | none => rw [hl] at h; cases h; rfl
+  | some v => rw [hl] at h; cases h⟩
+
+theorem fg_round (x : Rat) : Foreign (Code2.round_to_1_decimal x) := fg_pure _
+
+/-- one structural step; leaves (`get_value`, …) are supplied by `assumption` -/
+macro "fg_step" : tactic =>
+  `(tactic| first
+    | intro _
+    | assumption
+    | apply fg_round
+    | apply fg_req
+    | apply fg_getitem
+    | apply fg_pure
+    | apply fg_ok
+    | apply fg_ite
+    | apply fg_bind)
+
+theorem fg_get_value (self : Code2.Self) (a : Str) : Foreign (Code2.get_value self a) := by
+  unfold Code2.get_value
+  repeat fg_step
+
+theorem fg_impact (self : Code2.Self) : Foreign (Code2.impact_equation self) := by
+  unfold Code2.impact_equation
+  repeat (first | apply fg_get_value | fg_step)
+
+theorem fg_adjusted (self : Code2.Self) : Foreign (Code2.adjusted_impact_equation self) := by
+  unfold Code2.adjusted_impact_equation
+  repeat (first | apply fg_get_value | fg_step)
+
+theorem fg_base (self : Code2.Self) (adj : Bool) : Foreign (Code2.base_score_equation self adj) := by
+  unfold Code2.base_score_equation
+  repeat (first | apply fg_get_value | apply fg_impact | apply fg_adjusted | fg_step)
+
+theorem fg_temporal (self : Code2.Self) (adj : Bool) : Foreign (Code2.temporal_score_equation self adj) := by
+  unfold Code2.temporal_score_equation
+  repeat (first | apply fg_get_value | apply fg_base | fg_step)
+
+theorem fg_cb (self : Code2.Self) : Foreign (Code2.compute_base_score self) := by
+  unfold Code2.compute_base_score
+  repeat (first | apply fg_base | fg_step)
+
+theorem fg_ct (self : Code2.Self) : Foreign (Code2.compute_temporal_score self) := by
+  unfold Code2.compute_temporal_score
+  repeat (first | apply fg_temporal | fg_step)
+
+theorem fg_ce (self : Code2.Self) : Foreign (Code2.compute_environmental_score self) := by
+  unfold Code2.compute_environmental_score
+  repeat (first | apply fg_get_value | apply fg_temporal | fg_step)
+
+end Aux
+
+/-- the scoring part never raises an exception of the library's own hierarchy -/
+theorem init_tail_error (self : Code2.Self) (vector : Str) (e : Py.Exc)
+    (h : Code2.init_tail self vector = .error e) : e.toErr = .foreign := by
+  have : Aux.Foreign (Code2.init_tail self vector) := by
+    unfold Code2.init_tail
+    repeat (first | apply Aux.fg_cb | apply Aux.fg_ct | apply Aux.fg_ce | fg_step)
+  exact this.out e h
+
+namespace Aux
+
+theorem hasKey_iff_mem {β : Type} (k : Str) (l : List (Str × β)) : hasKey k l = true ↔ k ∈ keys l := by
+  induction l with
+  | nil => simp [hasKey, lookup, keys]
+  | cons p l ih =>
+    obtain ⟨a, b⟩ := p
+    by_cases hk : k = a
+    · simp [hasKey, lookup, keys, hk]
+    · have : (hasKey k ((a, b) :: l)) = hasKey k l := by simp [hasKey, lookup, hk]
+      rw [this, ih]
+      simp [keys, hk]
+
+theorem lookup_map_keys {β : Type} (k : Str) (l : List (Str × List (Str × β))) :
+    lookup k (l.map (fun (k, row) => (k, keys row))) = (lookup k l).map keys := by
+  induction l with
+  | nil => rfl
+  | cons p l ih =>
+    obtain ⟨a, b⟩ := p
+    by_cases hk : k = a
+    · simp [lookup, hk]
+    · simp [lookup, hk, ih]
+
+theorem insert_absent {β : Type} (k : Str) (v : β) (l : List (Str × β)) (h : hasKey k l = false) :
+    insert k v l = l ++ [(k, v)] := by
+  induction l with
+  | nil => rfl
+  | cons p l ih =>
+    obtain ⟨a, b⟩ := p
+    by_cases hk : k = a
+    · simp [hasKey, lookup, hk] at h
+    · have h' : hasKey k l = false := by simpa [hasKey, lookup, hk] using h
+      simp [insert, hk, ih h']
+
+def parseBody : Code2.Self → Str → Py.M Code2.Self :=
+  fun (st : Code2.Self) (field : Str) => (do
+    let self := st
+    let () ← (if (field = c!"") then (do
+        Py.raise .malformed) else (do
+        pure ()))
+    let (metric, value_) ← Py.tryExcept (do
+        let (metric, value_) ← Py.unpack2 (splitOn ':' field)
+        pure (metric, value_)) .valueError (do
+        Py.raise .malformed)
+    let self ← (if (Py.contains metric Gen.V2.abbrs = true) then (do
+        let t1 ← Py.getitem metric Gen.V2.values
+        let self ← (if (Py.contains value_ t1 = true) then (do
+            let () ← (if (Py.contains metric self.metrics = true) then (do
+                Py.raise .malformed) else (do
+                pure ()))
+            let self : Code2.Self := { self with metrics := Py.setitem metric value_ self.metrics }
+            pure self) else (do
+            Py.raise .malformed))
+        pure self) else (do
+        Py.raise .malformed))
+    pure self)
+
+theorem parse_step (st : Code2.Self) (field : Str) :
+    (parseBody st field).mapError Py.Exc.toErr =
+      (Model.parseField Model.V2.tables st.metrics field).map (fun m => { st with metrics := m }) := by
+  unfold parseBody Model.parseField
+  by_cases hf : field = []
+  · simp [hf, Py.raise, bind, Except.bind, Except.mapError, Except.map, Py.Exc.toErr]
+  · simp only [hf, if_false]
+    rcases hs : splitOn ':' field with _ | ⟨a, _ | ⟨b, _ | ⟨c, r⟩⟩⟩
+    · simp [Py.unpack2, Py.tryExcept, Py.raise, bind, Except.bind, pure, Except.pure,
+        Except.mapError, Except.map, Py.Exc.toErr]
+    · simp [Py.unpack2, Py.tryExcept, Py.raise, bind, Except.bind, pure, Except.pure,
+        Except.mapError, Except.map, Py.Exc.toErr]
+    · simp only [Py.unpack2, Py.tryExcept, bind, Except.bind, pure, Except.pure, Py.contains, Py.setitem,
+        Model.V2.tables, lookup_map_keys]
+      by_cases hm : hasKey a Gen.V2.abbrs = true
+      · have hm' : a ∈ keys Gen.V2.abbrs := (hasKey_iff_mem _ _).1 hm
+        simp only [hm, hm', if_true, Bool.false_eq_true, if_false, Py.getitem]
+        cases hl : lookup a Gen.V2.values with
+        | none => rfl
+        | some row =>
+          simp only [Option.map]
+          by_cases hv : hasKey b row = true
+          · have hv' : b ∈ keys row := (hasKey_iff_mem _ _).1 hv
+            simp only [hv, hv', if_true]
+            by_cases hd : hasKey a st.metrics = true
+            · simp only [hd, if_true]
+              rfl
+            · have hd' : hasKey a st.metrics = false := by simpa using hd
+              simp only [hd', Bool.false_eq_true, if_false, insert_absent _ _ _ hd']
+              rfl
+          · have hv' : ¬ b ∈ keys row := fun h => hv ((hasKey_iff_mem _ _).2 h)
+            simp only [hv, hv', if_false]
+            rfl
+      · have hm' : ¬ a ∈ keys Gen.V2.abbrs := fun h => hm ((hasKey_iff_mem _ _).2 h)
+        simp only [hm, hm', if_false, Bool.false_eq_true]
+        rfl
+    · simp [Py.unpack2, Py.tryExcept, Py.raise, bind, Except.bind, pure, Except.pure,
+        Except.mapError, Except.map, Py.Exc.toErr]
+
+theorem parse_fold (fs : List Str) (st : Code2.Self) :
+    (List.foldlM parseBody st fs).mapError Py.Exc.toErr =
+      (Model.parseFields Model.V2.tables st.metrics fs).map (fun m => { st with metrics := m }) := by
+  induction fs generalizing st with
+  | nil => rfl
+  | cons f fs ih =>
+    rw [List.foldlM_cons]
+    have hstep := parse_step st f
+    unfold Model.parseFields
+    cases hb : parseBody st f with
+    | error e =>
+      rw [hb] at hstep
+      cases hp : Model.parseField Model.V2.tables st.metrics f with
+      | error e' =>
+        rw [hp] at hstep
+        simp only [Except.mapError, Except.map] at hstep
+        cases hstep
+        rfl
+      | ok m => rw [hp] at hstep; cases hstep
+    | ok s' =>
+      rw [hb] at hstep
+      cases hp : Model.parseField Model.V2.tables st.metrics f with
+      | error e' => rw [hp] at hstep; cases hstep
+      | ok m =>
+        rw [hp] at hstep
+        simp only [Except.mapError, Except.map] at hstep
+        cases hstep
+        exact ih _
+
+def mandBody (m : List (Str × Str)) : List Str → Str → Py.M (List Str) :=
+  fun (st : (List Str)) (mandatory_metric : Str) => (do
+    let missing := st
+    let missing ← (if (¬ (Py.contains mandatory_metric m = true)) then (do
+        let missing : List Str := missing ++ [mandatory_metric]
+        pure missing) else (do
+        pure missing))
+    pure missing)
+
+theorem mand_step (m : List (Str × Str)) (k : Str) (acc : List Str) :
+    mandBody m acc k = .ok (acc ++ [k].filter (fun k => !hasKey k m)) := by
+  unfold mandBody
+  by_cases hk : hasKey k m = true
+  · simp [Py.contains, hk, pure, Except.pure]
+  · simp [Py.contains, hk, pure, Except.pure]
+
+theorem mand_fold (m : List (Str × Str)) (l : List Str) (acc : List Str) :
+    List.foldlM (mandBody m) acc l = .ok (acc ++ l.filter (fun k => !hasKey k m)) := by
+  induction l generalizing acc with
+  | nil => simp [List.foldlM, pure, Except.pure]
+  | cons k l ih =>
+    rw [List.foldlM_cons, mand_step]
+    simp only [bind, Except.bind, ih]
+    rw [List.append_assoc, ← List.filter_append]
+    rfl
+
+theorem parse_vector_unf (self : Code2.Self) :
+    Code2.parse_vector self =
+      ((if self.vector = [] then Py.raise .malformed else pure ()) >>= fun () =>
+        (if endsWithChar '/' self.vector = true then Py.raise .malformed else pure ()) >>= fun () =>
+          List.foldlM parseBody self (splitOn '/' self.vector)) := rfl
+
+theorem check_mandatory_unf (self : Code2.Self) :
+    Code2.check_mandatory self =
+      (List.foldlM (mandBody self.metrics) [] Gen.V2.mandatory >>= fun missing =>
+        (if missing ≠ [] then Py.raise .mandatory else pure ()) >>= fun () => pure ()) := rfl
+
+end Aux
+
+/-- `parse_vector()` on a fresh object: same outcome class and same metric dict as the model's parser -/
+theorem parse_vector_eq (self : Code2.Self) (h : self.metrics = []) :
+    ((Code2.parse_vector self).mapError Py.Exc.toErr).map (fun x => (x.vector, x.metrics)) =
+      (Model.parseNoPrefix Model.V2.tables self.vector).map (fun m => (self.vector, m)) := by
+  rw [Aux.parse_vector_unf]
+  unfold Model.parseNoPrefix
+  by_cases hv : self.vector = []
+  · simp only [hv, if_true]
+    rfl
+  · simp only [hv, if_false]
+    by_cases he : endsWithChar '/' self.vector = true
+    · simp only [he, if_true]
+      rfl
+    · simp only [he, if_false, Bool.false_eq_true, pure_bind]
+      rw [Aux.parse_fold, h]
+      cases Model.parseFields Model.V2.tables [] (splitOn '/' self.vector) <;> rfl
+
+/-- `check_mandatory()` -/
+theorem check_mandatory_eq (self : Code2.Self) :
+    (Code2.check_mandatory self).mapError Py.Exc.toErr = Model.checkMandatory Model.V2.tables self.metrics := by
+  rw [Aux.check_mandatory_unf, Aux.mand_fold]
+  unfold Model.checkMandatory
+  show _ = if (Gen.V2.mandatory.all fun k => hasKey k self.metrics) = true then Except.ok () else Except.error Err.mandatory
+  simp only [List.nil_append, bind, Except.bind]
+  by_cases hall : (Gen.V2.mandatory.all fun k => hasKey k self.metrics) = true
+  · have : Gen.V2.mandatory.filter (fun k => !hasKey k self.metrics) = [] := by
+      rw [List.filter_eq_nil_iff]
+      intro k hk
+      have := (List.all_eq_true.1 hall) k hk
+      simp [this]
+    rw [if_pos hall, this]
+    rfl
+  · have : Gen.V2.mandatory.filter (fun k => !hasKey k self.metrics) ≠ [] := by
+      intro hnil
+      apply hall
+      rw [List.all_eq_true]
+      intro k hk
+      have := (List.filter_eq_nil_iff.1 hnil) k hk
+      simpa using this
+    rw [if_neg hall, if_pos this]
+    rfl
+
+/-- THE WHOLE CONSTRUCTOR, for every string: `CVSS2(s)` as translated from the source text and the
+    model's `construct` fail with the same exception class or succeed with the same vector, metric
+    dict and the same three scores -/
+theorem construct_eq (s : Str) :
+    ((Code2.construct s).mapError Py.Exc.toErr).map
+        (fun x => (x.vector, x.metrics, x.base_score, x.temporal_score, x.environmental_score)) =
+      (Model.V2.construct s).map (fun o => (o.vector, o.metrics, some o.base, o.temporal, o.env)) := by
+  have hinit : Code2.construct s =
+      (Code2.parse_vector (Code2.initSelf s []) >>= fun self =>
+        Code2.check_mandatory self >>= fun _ => Code2.init_tail self s) := rfl
+  rw [hinit]
+  have hp := parse_vector_eq (Code2.initSelf s []) rfl
+  have hs : (Code2.initSelf s []).vector = s := rfl
+  rw [hs] at hp
+  unfold Model.V2.construct Model.V2.parse
+  cases hpv : Code2.parse_vector (Code2.initSelf s []) with
+  | error e =>
+    rw [hpv] at hp
+    cases hm : Model.parseNoPrefix Model.V2.tables s with
+    | ok m => rw [hm] at hp; cases hp
+    | error e' =>
+      rw [hm] at hp
+      simp only [Except.mapError, Except.map] at hp
+      cases hp
+      rfl
+  | ok self1 =>
+    rw [hpv] at hp
+    cases hm : Model.parseNoPrefix Model.V2.tables s with
+    | error e' => rw [hm] at hp; cases hp
+    | ok m =>
+      rw [hm] at hp
+      simp only [Except.mapError, Except.map] at hp
+      have hvec : self1.vector = s := by injection hp with hp; exact (Prod.mk.inj hp).1
+      have hmet : self1.metrics = m := by injection hp with hp; exact (Prod.mk.inj hp).2
+      have hc := check_mandatory_eq self1
+      rw [hmet] at hc
+      simp only [bind, Except.bind]
+      cases hcm : Code2.check_mandatory self1 with
+      | error e =>
+        rw [hcm] at hc
+        rw [← hc]
+        rfl
+      | ok u =>
+        rw [hcm] at hc
+        rw [← hc]
+        have ht := init_tail_eq self1 s
+        rw [hmet, hvec] at ht
+        cases hit : Code2.init_tail self1 s with
+        | error e =>
+          have hfe := init_tail_error self1 s e hit
+          rw [hit] at ht
+          cases hcs : Model.V2.computeScores m with
+          | some x => rw [hcs] at ht; cases ht
+          | none =>
+            simp only [Except.mapError, Except.map, hfe, hcs]
+        | ok s2 =>
+          rw [hit] at ht
+          cases hcs : Model.V2.computeScores m with
+          | none => rw [hcs] at ht; cases ht
+          | some x =>
+            rw [hcs] at ht
+            obtain ⟨b, t, e⟩ := x
+            simp only [Except.toOption, Option.map] at ht
+            injection ht with ht
+            simp only [Except.mapError, Except.map, ht, hcs]
 
 namespace Aux
 
 theorem fmt2 (a b : Str) : Py.format c!"{0}:{1}" [a, b] = a ++ ':' :: b := by
   simp [Py.format, Py.formatAux, Py.fmtField]
 
-def cleanBody (m : List (Str × Str)) (nd : Str) : List Str → Str → Option (List Str) :=
+def cleanBody (m : List (Str × Str)) (nd : Str) : List Str → Str → Py.M (List Str) :=
   fun (st : (List Str)) (metric : Str) => (do
       let vector := st
       let vector ← (if (Py.contains metric m = true) then (do
@@ -206,23 +596,23 @@ def cleanF (m : List (Str × Str)) (nd : Str) : Str → Option Str :=
     | none => none
 
 theorem clean_step (m : List (Str × Str)) (nd : Str) (k : Str) (acc : List Str) :
-    cleanBody m nd acc k = some (acc ++ (cleanF m nd k).toList) := by
+    cleanBody m nd acc k = .ok (acc ++ (cleanF m nd k).toList) := by
   unfold cleanBody cleanF
   simp only [Py.contains, hasKey, Py.getitem]
   cases h : lookup k m with
-  | none => simp
+  | none => simp [pure, Except.pure]
   | some v =>
     by_cases hv : v = nd
-    · simp [hv]
-    · simp [hv, fmt2]
+    · simp [hv, pure, Except.pure, bind, Except.bind]
+    · simp [hv, fmt2, pure, Except.pure, bind, Except.bind]
 
 theorem clean_fold (m : List (Str × Str)) (nd : Str) (l : List Str) (acc : List Str) :
-    List.foldlM (cleanBody m nd) acc l = some (acc ++ l.filterMap (cleanF m nd)) := by
+    List.foldlM (cleanBody m nd) acc l = .ok (acc ++ l.filterMap (cleanF m nd)) := by
   induction l generalizing acc with
-  | nil => simp [List.foldlM]
+  | nil => simp [List.foldlM, pure, Except.pure]
   | cons k l ih =>
     rw [List.foldlM_cons, clean_step]
-    simp only [Option.bind_eq_bind, Option.bind_some, ih, List.filterMap_cons]
+    simp only [bind, Except.bind, ih, List.filterMap_cons]
     cases cleanF m nd k <;> simp
 
 theorem sev_step (acc : List Str) (score : Option Rat) :
@@ -243,22 +633,22 @@ theorem sev_step (acc : List Str) (score : Option Rat) :
                   pure severities))
               pure severities))
           pure severities))
-      pure severities : Option (List Str)) = some (acc ++ [Model.V2.sevOf score]) := by
+      pure severities : Py.M (List Str)) = .ok (acc ++ [Model.V2.sevOf score]) := by
   cases score with
-  | none => simp [Model.V2.sevOf]
+  | none => simp [Model.V2.sevOf, pure, Except.pure]
   | some s =>
     simp only [Model.V2.sevOf, Model.V2.r, Py.req]
     by_cases h1 : s ≤ mkRat 39 10
-    · simp [h1]
+    · simp [h1, pure, Except.pure, bind, Except.bind]
     · by_cases h2 : s ≤ mkRat 69 10
-      · simp [h1, h2]
-      · simp [h1, h2]
+      · simp [h1, h2, pure, Except.pure, bind, Except.bind]
+      · simp [h1, h2, pure, Except.pure, bind, Except.bind]
 
 end Aux
 
 /-- `clean_vector()` -/
 theorem clean_vector_eq (self : Code2.Self) :
-    Code2.clean_vector self = some (Model.V2.cleanOf self.metrics) := by
+    Code2.clean_vector self = .ok (Model.V2.cleanOf self.metrics) := by
   unfold Code2.clean_vector Model.V2.cleanOf
   have h := Aux.clean_fold self.metrics c!"ND" (keys Gen.V2.abbrs) []
   simp only [List.nil_append] at h
@@ -267,24 +657,24 @@ theorem clean_vector_eq (self : Code2.Self) :
   rw [h]
   rfl
 
-/-- `severities()` (the base score is always set once `__init__` has run) -/
+/-- `severities()` -/
 theorem severities_eq (self : Code2.Self) :
     Code2.severities self =
-      some [Model.V2.sevOf self.base_score, Model.V2.sevOf self.temporal_score,
-            Model.V2.sevOf self.environmental_score] := by
+      .ok [Model.V2.sevOf self.base_score, Model.V2.sevOf self.temporal_score,
+           Model.V2.sevOf self.environmental_score] := by
   unfold Code2.severities
   simp only [List.foldlM_cons, List.foldlM_nil, Aux.sev_step]
   rfl
 
 /-- `temporal_vector()` / `environmental_vector()` -/
 theorem temporal_vector_eq (self : Code2.Self) (o : Model.V2.Obj) (h : o.metrics = self.metrics) :
-    Code2.temporal_vector self = some o.temporalVector := by
+    Code2.temporal_vector self = .ok o.temporalVector := by
   unfold Code2.temporal_vector Model.V2.Obj.temporalVector
-  simp [h, Model.V2.ND]
+  simp [h, Model.V2.ND, pure, Except.pure]
 
 theorem environmental_vector_eq (self : Code2.Self) (o : Model.V2.Obj) (h : o.metrics = self.metrics) :
-    Code2.environmental_vector self = some o.environmentalVector := by
+    Code2.environmental_vector self = .ok o.environmentalVector := by
   unfold Code2.environmental_vector Model.V2.Obj.environmentalVector
-  simp [h, Model.V2.ND]
+  simp [h, Model.V2.ND, pure, Except.pure]
 
 end Cvss.Props.CodeTie2
